@@ -553,6 +553,8 @@ def judge(ev, vd, runner, states, invs, pairs, results, work, tier, timing):
 def replay(path):
     d = json.load(open(path))
     rp = d["replay"]
+    if "seed" in rp:
+        os.environ["VERIF_SEED"] = str(rp["seed"])      # garbage bytes of the corruption recipes are seeded
     work = fast_tmp()
     try:
         b = build.build()
